@@ -77,7 +77,7 @@ func render(toks []Tok) string {
 
 const bareChars = "abcxyzABCXYZ0189_-./:,@%+"
 
-var quotedExtra = []string{" ", " ", " ", "=", `"`, "'", "é", "日本", "\t", "  ", "\n", "\n", "#", "(", ")", "*", "?", "!", "&", ";", "|", "<", ">", "{", "}", "[", "]", "~"}
+var quotedExtra = []string{" ", " ", " ", "=", `"`, "'", "é", "日本", "\t", "  ", "\n", "\n", "#", "(", ")", "*", "?", "!", "&", ";", "|", "<", ">", "{", "}", "[", "]", "~", `\d+`, `\\t`, `\\n`, `a\b`, `\\r`, `C:\\new\\temp`}
 
 func genBare(t *rapid.T, allowEq bool, label string) string {
 	n := rapid.IntRange(1, 8).Draw(t, label+"Len")
